@@ -80,10 +80,17 @@ func main() {
 		return
 	}
 	if *pathsOf != "" {
-		for _, fn := range P.Funcs {
-			if strings.Contains(fname(fn), *pathsOf) {
+		fns := P.Funcs
+		if *pathsOf == "@nodes" {
+			fns = P.nodeFuncs()
+		}
+		for _, fn := range fns {
+			if *pathsOf == "@nodes" || strings.Contains(fname(fn), *pathsOf) {
 				ps, cap := P.nodePaths(fn)
 				fmt.Printf("### %s: %d paths (cap hit: %v)\n", fname(fn), len(ps), cap)
+				if m := P.nodePathsMemo[fn]; m != nil && len(m.inlined) > 0 {
+					fmt.Printf("    inlined: %v\n", m.inlined)
+				}
 				for _, p := range ps {
 					fmt.Println("  ", p.String())
 				}
